@@ -440,6 +440,21 @@ func blockedInIce(dump string) bool {
 	return false
 }
 
+// runningInIce: some goroutine is running (or runnable) with an ice frame on its
+// stack - used by the stall watchdog only, i.e. after minutes without progress.
+func runningInIce(dump string) bool {
+	for _, g := range strings.Split(dump, "\n\n") {
+		head := g
+		if i := strings.IndexByte(g, '\n'); i >= 0 {
+			head = g[:i]
+		}
+		if (strings.Contains(head, "[running") || strings.Contains(head, "[runnable")) && strings.Contains(g, "github.com/blugelabs/ice/v2.") {
+			return true
+		}
+	}
+	return false
+}
+
 func trimDump(d string) string {
 	if len(d) > 6000 {
 		return d[:6000] + "\n...[trimmed]"
